@@ -375,7 +375,7 @@ func (f *FnVC) specIndex(env *SEnv, e *spec.Expr) (Val, error) {
 			return Val{}, err
 		}
 		kt := f.mapKey(k)
-		has := f.mapHas(env.cur, x.T, mt, kt)
+		has := and(not(eq(x.T, Term{"0", SRef})), f.mapHas(env.cur, x.T, mt, kt))
 		return Val{T: ite(has, f.mapVal(env.cur, x.T, mt, kt), f.TE.Zero(mt.Elem())), Typ: mt.Elem()}, nil
 	}
 	i, err := f.evalSpec(env, e.Args[1], types.Typ[types.Int])
